@@ -322,7 +322,7 @@ PROPS["C15"] = {
     "assumptions": COMMON_ASSUME + ['ids, names, units and string contents are literals in whole-message harnesses (whether a byte is NUL is control for the parser); arbitrary contents are decided in C19 / c02d'],
     "trusted_base": [],
     "harnesses": [H("c15::" + n, "quick", 900) for n in ["c15_new_nonverbose_noext", "c15_new_nonverbose_ext_be", "c15_new_control",
-                  "c15_new_nettrace_le", "c15_new_nettrace_be", "c15_new_verbose_empty", "c15_new_nettrace_empty", "c15_valid_rejects_mismatched_values"]]
+                  "c15_new_nettrace_le", "c15_new_nettrace_be", "c15_new_verbose_empty", "c15_new_nettrace_empty", "c15_valid_rejects_mismatched_values", "c15_storage_header_boundary_ecu_ids"]]
                  + [H("c15::" + n, "quick", 900) for n in ["c15_new_verbose_u16", "c15_new_verbose_string"]]
                  + [H("c15::" + n, "quick", 900, what="Message::new -> as_bytes -> dlt_message returns the configured message (one query)") for n in
                     ["c15_back_nonverbose_noext", "c15_back_control", "c15_back_nettrace_be", "c15_back_nettrace_empty", "c15_back_verbose_empty", "c15_back_verbose_bool"]]
